@@ -79,9 +79,11 @@ def condition (mode : Int) (src : Str) : Expr :=
       (.binary .AND (.binary .EQ (v "a") (.string ['x']))
         (.paren (.binary .OR (.binary .NEQREGEX (v "t") re) (.call ['f'] [.binary .EQREGEX (v "t") re]))))
       (.paren (.paren (.binary .EQREGEX (v "t") re)))
-  else
+  else if mode = 4 then
     .binary .OR (.binary .EQREGEX (v "t") re)
       (.binary .AND (.binary .NEQREGEX (v "u") re) (.binary .EQ (v "t") (.string ['a', 'b'])))
+  else
+    .binary .AND (.binary .NEQREGEX (v "u") re) (.binary .EQREGEX (v "t") re)
 
 /-- All strings over `alpha` of length ≤ `bound`, by length, then in alphabet order. -/
 def enumerate (alpha : List Char) : Nat → List Str × List Str
